@@ -509,6 +509,64 @@ class GuardResult:
         self.detail = {}
 
 
+CURRENT_FACTS = None
+
+
+def _adapter_idiom(fn, matcher, err):
+    """`callee(..).ok_or(E)` / `.ok_or_else(|| E)` (for a rejection on None) and `.map_err(|_| E)` (on Err), with
+    the resulting Result handed back to the caller, is the same obligation as `match callee(..) { None => return
+    Err(E), .. }`: the rejection is taken exactly when the call yields None / Err and cannot fall through.  The
+    adapter may sit in a closure of fn that is mapped over the elements (`ids.map(|id| ..).collect::<Result<..>>()`)."""
+    if not isinstance(matcher, CallResult) or matcher.when not in ("None", "Err") or err is None or CURRENT_FACTS is None:
+        return None
+    names = ("ok_or", "ok_or_else") if matcher.when == "None" else ("map_err",)
+    group = [fn] + CURRENT_FACTS.closures_of(fn)
+    for h in group:
+        for c in h.calls():
+            if c.name() not in names or not c.args:
+                continue
+            l = op_local(c.args[0])
+            if l is None or not matcher._derives_from_callee(h, l):
+                continue
+            # the error handed to the adapter
+            built = False
+            if len(c.args) > 1:
+                al = op_local(c.args[1])
+                d = h.single_def(h.resolve_copy(al)) if al is not None else None
+                if d and d[0] == "stmt" and d[3][0] == "agg" and d[3][1] == "closure":
+                    cf = CURRENT_FACTS.fns.get(d[3][2])
+                    built = cf is not None and bool(blocks_constructing(cf, err[0], err[1]))
+                elif al is not None:
+                    src = h.derives_from(al) | {al}
+                    built = any(st[0] == "a" and st[2][0] == "agg" and st[2][1] == "adt" and st[2][2].endswith(err[0])
+                                and (err[1] is None or st[2][4] == err[1]) and place_local(st[1]) in src for _, _, st in h.stmts())
+            if not built:
+                continue
+            # the Result goes back: to h's return value (directly or through `?`)
+            fl = h.flows_to(place_local(c.dest))
+            if 0 not in fl:
+                continue
+            if h is not fn:
+                # h is a closure: its results must be collected into the Result that fn returns
+                ok_outer = False
+                for x in fn.calls():
+                    if any((fn.single_def(fn.resolve_copy(op_local(a))) or (None,))[0] == "stmt" and
+                           fn.single_def(fn.resolve_copy(op_local(a)))[3][0] == "agg" and fn.single_def(fn.resolve_copy(op_local(a)))[3][1] == "closure"
+                           and fn.single_def(fn.resolve_copy(op_local(a)))[3][2] == h.path for a in x.args if op_local(a) is not None):
+                        if 0 in fn.flows_to(place_local(x.dest)):
+                            ok_outer = True
+                if not ok_outer:
+                    continue
+            r = GuardResult()
+            r.ok = True
+            r.site = c.bb
+            r.line = c.line
+            r.msg = "`%s(..).%s(%s::%s)` handed back to the caller: rejects exactly when the result is %s" % (
+                matcher.callee.strip(":"), c.name(), err[0], err[1], matcher.when)
+            return r
+    return None
+
+
 def check_guard(fn, matcher, err=None, expect_rel=None, sinks=None, bypass="auto", protects=None, entry=0):
     """The guard obligation.
 
@@ -532,6 +590,9 @@ def check_guard(fn, matcher, err=None, expect_rel=None, sinks=None, bypass="auto
         if m is not None:
             cands.append((bb, m))
     if not cands:
+        alt = _adapter_idiom(fn, matcher, err)
+        if alt is not None:
+            return alt
         r.msg = "no test of `%s` found" % matcher.describe()
         return r
     if sinks is None:
